@@ -44,6 +44,7 @@ inductive Loc
   | setStarted  -- next: `started := True`
   | callBody    -- `run(params.json)`: load the configuration; next: enter the task body (`task.execute()`)
   | body (k : Nat)  -- inside the task body, `k` internal points passed
+  | raised0     -- the body ended itself with `sys.exit(0)`: SystemExit(0) in flight inside the try; next: `except SystemExit`
   | bodyDone    -- body returned; next: restore the SIGTERM disposition
   | restTerm    -- next: restore the SIGINT disposition
   | restInt     -- next: `atexit.unregister(cleanup)` (today) / nothing (repaired)
@@ -56,12 +57,12 @@ inductive Loc
   deriving DecidableEq, Repr
 
 def Loc.inTry : Loc → Bool
-  | .tryLock | .locked | .rmFailed | .setStarted | .callBody | .body _ | .bodyDone | .restTerm | .restInt | .sysExit | .skipped => true
+  | .tryLock | .locked | .rmFailed | .setStarted | .callBody | .body _ | .raised0 | .bodyDone | .restTerm | .restInt | .sysExit | .skipped => true
   | _ => false
 
 /-- the locations between the done test and the success marker (the lock is held there) -/
 def Loc.critical : Loc → Bool
-  | .rmFailed | .setStarted | .callBody | .body _ | .bodyDone | .restTerm | .restInt | .sysExit | .touch => true
+  | .rmFailed | .setStarted | .callBody | .body _ | .raised0 | .bodyDone | .restTerm | .restInt | .sysExit | .touch => true
   | _ => false
 
 inductive Holder | run (i : Nat) | launch (l : Nat)
@@ -144,8 +145,9 @@ def mainStep (cfg : Cfg) (me : Nat) (sh : Shared) (p : Proc) : Shared × Proc :=
       else match p.outcome with
         | .ok => (sh, { p with loc := .bodyDone, completed := true })
         | .exc => (sh, { p with loc := .herr .write 1 })
-        | .exit 0 => (sh, { p with loc := .touch, completed := true })
+        | .exit 0 => (sh, { p with loc := .raised0, completed := true })
         | .exit (n + 1) => (sh, { p with loc := .herr .write (n + 1) })
+  | .raised0 => (sh, { p with loc := .touch })
   | .bodyDone => (sh, { p with loc := .restTerm, termH := false })
   | .restTerm => (sh, { p with loc := .restInt, intH := false })
   | .restInt => (sh, { p with loc := .sysExit, reg := if cfg.unregOnSuccess then false else p.reg })
